@@ -94,6 +94,9 @@ def gemini(tier, seed, modes=("C01", "C02")):
                     continue
                 for mode in modes:
                     out.append(Evaluate(cls, ovo, n, K, mode, "interior"))
+                    if (n, K) in ((9, 5), (33, 3)):
+                        out.append(Evaluate(cls, ovo, n, K, mode, "interior", "F"))
+                        out.append(Evaluate(cls, ovo, n, K, mode, "interior", "strided"))
             # (more than 64 clusters: contracts/gemini_large.py, against a vectorised reference -- the index-explicit spec takes 10 s per score there)
     return out
 
@@ -127,6 +130,11 @@ def prox(tier, seed):
          # many rows / wide layers (block-wise or chunked implementations: 32, 97 = 2048 // 21, 256 rows)
          LinearProx(45, 3, "generic"), LinearProx(300, 2, "generic"), HierProx(2, 3, "generic", 45), HierProx(2, 20, "generic", 110),
          HierProx(1, 2, "generic", 300), GroupLinearProx(70, 1, [list(range(0, 70, 2)), list(range(1, 70, 2))])]
+    # the operators as the models apply them (the proximal STEP of the sparse models: _update_weights on the model's own weights)
+    from .prox import applied
+    L += [applied(LinearProx(21, 9, "generic")), applied(GroupLinearProx(9, 3, [[0, 5, 2, 7], [1, 3], [4], [8, 6]])),
+          applied(HierProx(3, 6, "generic", 7)), applied(HierProx(2, 3, "generic", 45)), applied(HierProx(4, 5, "M0", 2)),
+          applied(GroupHierProx(7, 3, 5, [[0, 4, 2, 6], [1, 3], [5]])), applied(GroupHierProx(6, 2, 4, [[5, 0, 3], [1, 2, 4]]))]
     return L
 
 
